@@ -36,6 +36,7 @@ if [ "$mode" = seeds ] || [ "$mode" = all ] || [ "$mode" = seeds-serial ]; then
     git -C /repo apply /verif/$d/patch.diff || { echo "PATCH DOES NOT APPLY: $name"; fail=1; continue; }
     ./check $id quick > .build/selftest.out 2>&1; rc=$?
     git -C /repo checkout -- . ; git -C /repo clean -qfd -e target >/dev/null 2>&1
+    grep -E "violation signature|^VIOLATION|^OK |^INCONCLUSIVE|^KNOWN-FINDING" .build/selftest.out | head -12 > $d/check_$id.quick.out
     sig=$(grep "violation signature" .build/selftest.out | head -1 | sed 's/.*signature: //')
     if [ $rc -eq 1 ]; then echo "caught   $name by $id quick: $sig"; else echo "MISSED   $name by $id quick (exit $rc)"; fail=1; fi
   done
